@@ -452,6 +452,10 @@ fn cases(tier: Tier) -> Vec<Case> {
                 }
             }
             shapes.push(base(h2, "get", 200, "chunked", vec![2, 5], "103+100", 0, pacing));
+            // a bodiless response may still announce the framing its body would have had (RFC 9112 6.1)
+            shapes.push(base(h2, "head", 200, "chunked", vec![5], "none", 0, pacing));
+            shapes.push(base(h2, "get", 304, "chunked", vec![5], "none", 0, pacing));
+            shapes.push(base(h2, "head", 200, "cl", vec![40], "100", 0, pacing));
             for status in [204u16, 304, 404] {
                 shapes.push(base(h2, "get", status, "cl", vec![if status == 404 { 5 } else { 0 }], "none", 0, pacing));
             }
